@@ -25,6 +25,12 @@ func compileProgram(p *pgen.Program, dir string) (*syntax.Ast, string, error) {
 	}
 	mainPath := filepath.Join(dir, "main.mro")
 	src, _, ast, err := syntax.ParseSourceBytes([]byte(files["main.mro"]), mainPath, []string{dir}, false)
+	if err == nil && ast != nil && ast.Call != nil {
+		// mrp / mro check also resolve the static call graph.
+		if _, gerr := ast.MakeCallGraph("ID.psid.", ast.Call); gerr != nil {
+			return ast, src, fmt.Errorf("call graph: %v", gerr)
+		}
+	}
 	return ast, src, err
 }
 
